@@ -37,6 +37,8 @@ NOT_APPLICABLE = {
     "C10": "defined through ln of floats; neither verifier has a semantics for ln and the identities hold only up to roundoff (error paths are covered by C17)",
 }
 
+BOUNDED_NOTE = "bounded stand-in (never counted as proved): the routine's body is a closure / iterator-adaptor chain over ndarray (Zip, fold, map_axis, lanes) that Verus rejects, and Kani does not finish on ndarray's iterators within the tier budget"
+
 PROPS = {
     "C02": {
         "level": "proof",
@@ -84,6 +86,19 @@ PROPS = {
         "assumptions": [A_ORD, A_STD, A_VERUS, A_EXTRACT, A_ENUM],
         "assumed_repo_fns": ["src/histogram/bins.rs Bins::range_of, Edges::from(Array1), Edges::as_array_view/iter; src/histogram/grid.rs Grid::{shape,index_of,index,ndim,projections}: outside Verus (closures with tuple patterns, iterator adaptor chains) - bounded enumeration only"],
         "not_decided": [],
+    },
+    "C17": {
+        "level": "exploration",
+        "exhaustive": True,
+        "level_text": "error paths depend only on shapes and on q, never on element values, so the decision table {empty, non-empty} x {same shape, different shape of equal rank incl. equal element count} x q classes x every fallible public routine is enumerated exhaustively on the real crate for ranks 1..3 with every axis length in 0..2 (catch_unwind per cell; error payloads - both shapes, the first offending q - compared); EquiSpaced::new's rejection rule is additionally proved by Verus",
+        "level_note": "bounded: axis lengths <= 2, ranks <= 3; value-independence of the guards is by inspection of the guard expressions (len/shape/q comparisons), not proved; strategies' EmptyInput/Strategy mapping is exercised by enum:strategies (C12)",
+        "technique": "exhaustive bounded decision table on the real crate + Verus contract on EquiSpaced::new",
+        "design_ref": "DESIGN.md 4 (C17)",
+        "verus": [("equispaced", "N")],
+        "enum": [{"name": "errors"}],
+        "assumptions": [A_ENUM, A_VERUS, A_EXTRACT, BOUNDED_NOTE],
+        "not_decided": ["shapes with an axis longer than 2 or rank above 3"],
+        "rule": "one case per (routine, shape, other shape / weights length / q list); non-trivial = the cell is an error cell or a shape-mismatch candidate rather than the plain Ok cell",
     },
     "C15": {
         "level": "proof",
